@@ -216,10 +216,10 @@ func (r *Run) Violate(sub string, c interface{}, f *Finding, rerun func() *Findi
 	}
 	r.vioSigs[f.Sig]++
 	n := r.vioSigs[f.Sig]
-	total := r.violations
+	nsigs := len(r.vioSigs)
 	r.violations++
 	r.mu.Unlock()
-	if n > 2 || total >= 12 {
+	if n > 2 || nsigs > 12 {
 		return // enough replay files for this signature
 	}
 	var reruns []string
